@@ -477,6 +477,21 @@ def shared_radio_rules(ctx):
     rls = gcz.find(lambda q: method_call(q, 'close') and norm(q.func.value) == 'self._radio')
     ctx.inst('R7', clz, 'thread-stopped-before-dongle-released', len(stp) == 1 and len(rls) == 1 and gcz.dominates(stp[0][0], rls[0][0]),
              'RadioDriver.close stops (joins) the radio thread on every path before it closes its radio instance')
+    # pause() / restart(): restart() starts a new radio thread unless its guard says one is running; pause() stops the thread, so it
+    # must leave that guard false, otherwise the link accepts packets after restart() and nothing transmits them
+    RDc = m.cls(RD, 'RadioDriver')
+    if RDc.has('pause') and RDc.has('restart'):
+        ps, rs = RDc.method('pause'), RDc.method('restart')
+        guards = [s_ for s_ in rs.node.body if isinstance(s_, ast.If) and s_.body and isinstance(s_.body[-1], ast.Return) and not s_.orelse]
+        starts = [c_ for c_ in walk_own(rs.node) if method_call(c_, 'start')]
+        if guards and starts and not any(isinstance(x, ast.Call) for x in ast.walk(guards[0].test)):
+            tested = {norm(a) for a in ast.walk(guards[0].test) if isinstance(a, ast.Attribute) and norm(a).startswith('self.')}
+            gp = cfg_of(ps)
+            stopc = gp.find(lambda q: method_call(q, 'stop'))
+            cleared = [st for t, st in stores(ps.node) if norm(t) in tested and isinstance(st, ast.Assign) and isinstance(st.value, ast.Constant) and not st.value.value]
+            ok = bool(stopc) and bool(cleared) and all(gp.dominates(gp.node_of(c_), gp.exit) for c_ in cleared)
+            ctx.inst('R7', ps, 'pause-leaves-restart-enabled', ok, 'restart() returns early while %s is set; pause() stops the thread and must clear it on every path '
+                     '(cleared: %s)' % (sorted(tested), [norm(c_) for c_ in cleared] or 'never'))
 
 
 VARIANTS = [
@@ -498,6 +513,7 @@ VARIANTS = [
     M('R11', RD, "            instance_id = self._next_instance_id\n", "            instance_id = len(self._rsp_queues)\n", 'id from table size'),
     M('R11', RD, "            self._next_instance_id += 1\n", "", 'counter never bumped'),
     M('R11', RD, "                ack = self._radio.send_packet(data)\n                self._rsp_queues[command[0]].put(ack)", "                ack = self._radio.send_packet(data)\n                for q in self._rsp_queues.values():\n                    q.put(ack)", 'ack broadcast'),
+    M('R7', RD, "        self._thread.stop()\n        self._thread = None\n\n    def restart", "        self._thread.stop()\n\n    def restart", 'pause keeps the thread handle'),
     B(RD, "            self._next_instance_id += 1\n", "            self._next_instance_id = self._next_instance_id + 1\n", 'plain increment'),
     B(RD, "            self._curr_up = 1 - self._curr_up", "            self._curr_up = self._curr_up ^ 1", 'xor toggle'),
     B(RD, "            if ackStatus.ack is False:\n                self._retry_before_disconnect = \\\n                    self._retry_before_disconnect - 1", "            if ackStatus.ack is False:\n                self._retry_before_disconnect -= 1", 'augmented decrement'),
